@@ -8,8 +8,14 @@
 (*    Deterministic and NoAliasing on the recorded snapshots.              *)
 (*  kind "concurrent": compilations of one shared config by 8 goroutines   *)
 (*    against the sequential baseline.                                     *)
+(*  kind "conv": the convenience call eval.Eval(src, vals) WITHOUT options  *)
+(*    (config derived from vals alone, default optimizations), repeated    *)
+(*    with the same source and the same names but other operator functions *)
+(*    behind the names: each call's value is the meaning of the source     *)
+(*    under THAT call's operators (Semantics!Den after renaming), whatever *)
+(*    was compiled before.                                                 *)
 (***************************************************************************)
-EXTENDS Integers, Sequences, FiniteSets, TLC, Json, IOUtils
+EXTENDS Machine, Json, IOUtils
 
 Trace == ndJsonDeserialize(IOEnv.OBS)
 VARIABLES l, judged, nontriv, skipped, drift, found
@@ -41,15 +47,31 @@ FConcurrent(r) ==
   (IF r.before # r.after THEN {<<"C08", r.id, 0, 0, "concurrent-compiles-modified-config">>} ELSE {})
   \cup {<<"C08", r.id, k, 0, "concurrent-compile-differs-from-sequential">> : k \in {j \in Idx(r.runs) : r.runs[j].fp # r.runs[j].want}}
 
+SwapName(n) == CASE n = "f" -> "g" [] n = "g" -> "f" [] n = "zt" -> "zf" [] n = "zf" -> "zt" [] OTHER -> n
+RECURSIVE SwapOps(_)
+SwapOps(t) ==
+  IF t.k \in {"c", "v"} THEN t
+  ELSE LET RECURSIVE kids(_, _)
+           kids(i, acc) == IF i > Len(t.kids) THEN acc ELSE kids(i + 1, Append(acc, SwapOps(t.kids[i])))
+       IN [t EXCEPT !.v = SwapName(@), !.kids = kids(1, <<>>)]
+FConv(r) ==
+  {f \in {<<"C08", r.id, k, 0, "convenience-call-ran-another-program">> : k \in Idx(r.calls)} :
+     LET c == r.calls[f[3]]
+         t == IF c.swap THEN SwapOps(r.tree) ELSE r.tree
+         d == Den(t, c.env)
+     IN ~OutOfDomain(d) /\
+        (IsPanic(c.res) \/ (Total(t, c.env) /\ ~OutcomeEq(c.res, d)) \/ (Ok(c.res) /\ Ok(d) /\ ~VEq(c.res, d)))}
+NConv(r) == Card({k \in Idx(r.calls) : r.calls[k].swap /\ ~OutcomeEq(Den(SwapOps(r.tree), r.calls[k].env), Den(r.tree, r.calls[k].env))})
+
 Init == l = 1 /\ judged = 0 /\ nontriv = 0 /\ skipped = 0 /\ drift = 0 /\ found = 0
 Next ==
   /\ l <= Len(Trace)
   /\ l' = l + 1
   /\ LET r == Trace[l]
-         F == IF r.kind = "history" THEN FHistory(r) ELSE FConcurrent(r)
+         F == CASE r.kind = "history" -> FHistory(r) [] r.kind = "conv" -> FConv(r) [] OTHER -> FConcurrent(r)
      IN /\ \A f \in F : PrintT(<<"F", f[1], f[2], f[3], f[4], f[5]>>)
-        /\ judged' = judged + (IF r.kind = "history" THEN Len(r.steps) ELSE Len(r.runs))
-        /\ nontriv' = nontriv + (IF r.kind = "history"
+        /\ judged' = judged + (CASE r.kind = "history" -> Len(r.steps) [] r.kind = "conv" -> Len(r.calls) [] OTHER -> Len(r.runs))
+        /\ nontriv' = nontriv + (IF r.kind = "conv" THEN NConv(r) ELSE IF r.kind = "history"
                                  THEN Card({k \in Idx(r.steps) : r.steps[k].op = "compile" /\ r.steps[k].compiled /\
                                               \E j \in 1..(k - 1) : r.steps[j].op = "compile" /\ r.steps[j].cfg = r.steps[k].cfg})
                                       + Card({k \in Idx(r.steps) : r.steps[k].op \in {"copy", "extend"}})
